@@ -1251,6 +1251,38 @@ fn session<G: Ecdh<Pk = NodeId>>(
     Ok(WireSession::with(proxy, noise))
 }
 
+/// Verification hook: the per-peer stream table, driven directly.
+#[cfg(feature = "verif")]
+pub mod verif {
+    use super::*;
+
+    /// The stream table of one connection.
+    pub struct StreamsProbe(Streams);
+
+    impl StreamsProbe {
+        pub fn new(link: Link) -> Self {
+            Self(Streams::new(link))
+        }
+
+        /// What the `open` control frame handler does with a stream id chosen by the remote.
+        pub fn remote_open(&mut self, stream: StreamId) -> bool {
+            self.0
+                .accept(stream, ChannelsConfig::new(FETCH_TIMEOUT))
+                .is_some()
+        }
+
+        /// What the wire does when the service asks for a fetch from this peer.
+        pub fn local_open(&mut self) -> StreamId {
+            self.0.open(ChannelsConfig::new(FETCH_TIMEOUT)).0
+        }
+
+        /// What the wire does when a stream is closed or its task is done.
+        pub fn close(&mut self, stream: &StreamId) -> bool {
+            self.0.unregister(stream).is_some()
+        }
+    }
+}
+
 #[cfg(test)]
 mod test {
     use super::*;
